@@ -349,6 +349,12 @@ func (m recMem) Set(a uint16, v uint8) {
 	m.w.add(Ev{K: 'w', A: a, V: v})
 }
 
+// nilPtrDev: see buildCPU
+type nilPtrDev struct{ _ int }
+
+func (d *nilPtrDev) In(p uint8) uint8     { return recIO{curWorld}.In(p) }
+func (d *nilPtrDev) Out(p uint8, v uint8) { recIO{curWorld}.Out(p, v) }
+
 type recIO struct{ w *World }
 
 func (d recIO) In(p uint8) uint8 {
@@ -398,7 +404,13 @@ func buildCPU(v *Vec, w *World) *z80.CPU {
 	cpu.IFF1, cpu.IFF2, cpu.HALT, cpu.IM = v.IFF1, v.IFF2, v.HALT, v.IM
 	cpu.Memory = recMem{w}
 	if v.HasIO {
-		cpu.IO = recIO{w}
+		if curWorld == w && v.DevSeed%5 == 2 {
+			// the same device as a TYPED NIL POINTER whose methods never touch the receiver (a stateless device declared as `var d *T`):
+			// it is a device like any other.  Only on the sequential paths, where curWorld is this run's world.
+			cpu.IO = (*nilPtrDev)(nil)
+		} else {
+			cpu.IO = recIO{w}
+		}
 	}
 	if v.HasRN {
 		cpu.RETNHandler = recRETN{w}
